@@ -27,8 +27,18 @@ ATTR = {('AIM', 'rho'): 'real', ('AIM', 'rounds'): 'int', ('AIM', 'max_model_siz
 
 
 class AimHooks(M.MechHooks):
+    def init(self, eng, st):
+        super().init(eng, st)
+        for k, v in self.cfg.get('ghost0', {}).items():
+            st.ghost[k] = z3.RealVal(v)
+
     def call(self, eng, st, name, recv, args, kw, node):
         short = name.split('.')[-1]
+        if short == 'exponential_mechanism' and recv is not None and isinstance(recv, E.Obj) and recv.cls == 'AIM':
+            # contract of Mechanism.exponential_mechanism (C20): log-odds eps/(2*sensitivity) * (q_i - q_j)
+            b = dict(zip(['qualities', 'epsilon', 'sensitivity'], args))
+            b.update(kw)
+            return self.select(eng, st, b['qualities'], b['epsilon'], b['sensitivity'], node)
         if short == 'gaussian_noise' and recv is not None and isinstance(recv, E.Obj) and recv.cls == 'AIM':
             # contract of Mechanism.gaussian_noise, proved in C20: draws prng.normal(0, sigma, size)
             return self.noise(eng, st, 'normal', [E.Num(z3.RealVal(0)), args[0], args[1]], {}, node)
@@ -36,7 +46,7 @@ class AimHooks(M.MechHooks):
 
 
 def hooks_for(contract):
-    cfg = dict(sens1=S1, sens2=S2)
+    cfg = dict(sens1=S1, sens2=S2, ghost0=contract.get('ghost0', {}))
     cfg.update(contract.get('hook_cfg', {}))
     return AimHooks(cfg)
 
@@ -46,14 +56,28 @@ def _answers(eng, name):
                  ghost={'elem_ghost': {'shape': ('privvec', S1, S2)}, 'len_taint': E.FALSE})
 
 
-# AIM.worst_approximated as a callee: errors[cl] = wgt*(||x - xest||_1 - bias) has sensitivity |wgt| (L-sens),
-# the declared sensitivity is max |wgt| >= each of them, and Mechanism.exponential_mechanism (C20) selects with
-# log-odds eps/(2*declared): the selection is eps-DP, i.e. eps^2/8-zCDP (L-dp).  ASSUMED contract (its body builds
-# two dicts in one loop; not yet under the ledger domain) — listed in the trusted base and exercised by the bounded tier.
+# AIM.worst_approximated as a callee; its clause `ledger` is proved on its own body below (WORST): errors[cl] has
+# sensitivity |wgt| (L-sens), the declared sensitivity max |wgt| dominates each, Mechanism.exponential_mechanism (C20)
+# selects with log-odds eps/(2*declared): eps-DP, i.e. eps^2/8-zCDP (L-dp).
 WORST_CALLEE = dict(
     arg_names=['candidates', 'answers', 'model', 'eps', 'sigma'],
     requires=['public(candidates)', 'public(model)', 'public(eps)', 'public(sigma)'],
     ghost_modifies=['ledger_rho', 'ledger_eps'], returns='obj:', returns_public=True,
+    ensures={'ledger': 'ghost("ledger_rho") <= ledger_rho__pre + eps*eps/8'},
+)
+
+def _answers_param(eng, name):
+    return _answers(eng, name)
+
+
+WORST = dict(
+    params=dict(self='obj:AIM', candidates='dict:real', answers=_answers_param, model='obj:model', eps='real', sigma='real'),
+    attr_types=ATTR, requires=['eps >= 0'], sqrt='nan',
+    local_types={'wgt': 'real'},
+    ghost0={'maxsens:errors': 0.0, 'maxval:sensitivity': 0.0},
+    # the declared sensitivity (max |wgt|) dominates the sensitivity |wgt| * SENS1 of every score
+    loops={1: dict(invariant=['ghost("maxsens:errors") >= 0', 'ghost("maxval:sensitivity") >= 0',
+                              'ghost("maxsens:errors") <= SENS1 * ghost("maxval:sensitivity")'])},
     ensures={'ledger': 'ghost("ledger_rho") <= ledger_rho__pre + eps*eps/8'},
 )
 
@@ -78,5 +102,5 @@ MECH_INIT = dict(
 REG = {'.worst_approximated': WORST_CALLEE}
 REG_INIT = {'cdp_rho': M.CDP_RHO}
 
-FUNCTIONS = [('AIM.run', RUN, REG)]
+FUNCTIONS = [('AIM.worst_approximated', WORST, {}), ('AIM.run', RUN, REG)]
 EXTRA = [('mechanisms/mechanism.py', 'Mechanism.__init__', MECH_INIT, REG_INIT)]
